@@ -2,6 +2,7 @@ package lease
 
 import (
 	"encoding/binary"
+	"math"
 	"time"
 
 	"github.com/go-i2p/common/data"
@@ -51,7 +52,12 @@ func NewLease(tunnelGateway data.Hash, tunnelID uint32, expirationTime time.Time
 	// Convert tunnel ID to big-endian format
 	binary.BigEndian.PutUint32(lease[LEASE_TUNNEL_GW_SIZE:LEASE_TUNNEL_GW_SIZE+LEASE_TUNNEL_ID_SIZE], tunnelID)
 
-	// Convert expiration time to I2P Date format (milliseconds since Unix epoch)
+	// Convert expiration time to I2P Date format (milliseconds since Unix epoch).
+	// UnixMilli() wraps around for instants more than about 292 million years from the epoch;
+	// such a time has no Date and must not be stored as some unrelated one.
+	if sec := expirationTime.Unix(); sec > math.MaxInt64/1000 || sec < math.MinInt64/1000 {
+		return nil, oops.Errorf("expiration time out of range for a millisecond Date: %d seconds", sec)
+	}
 	millis := expirationTime.UnixMilli()
 	binary.BigEndian.PutUint64(lease[LEASE_TUNNEL_GW_SIZE+LEASE_TUNNEL_ID_SIZE:], uint64(millis))
 
